@@ -215,6 +215,59 @@ class World:
         return objs
 
 
+_MODULE_SNAPSHOT = {}
+
+
+def _library_namespaces():
+    out = []
+    for name, mod in list(sys.modules.items()):
+        if name == 'smoothmath' or name.startswith('smoothmath.'):
+            out.append((name, vars(mod)))
+            for k, v in list(vars(mod).items()):
+                if isinstance(v, type) and getattr(v, '__module__', '').startswith('smoothmath'):
+                    out.append((name + '.' + k, dict(vars(v))))
+    return out
+
+
+def snapshot_module_state():
+    """remember the contents of every module-level / class-level container of the library as they are after import"""
+    import copy
+    for ns_name, ns in _library_namespaces():
+        for k, v in list(ns.items()):
+            if k.startswith('__'):
+                continue
+            if isinstance(v, (dict, list, set)):
+                try:
+                    _MODULE_SNAPSHOT[(ns_name, k)] = (v, copy.copy(v))
+                except Exception:  # noqa: BLE001
+                    pass
+
+
+def reset_module_state():
+    """empty every functools cache of the library and put module-level / class-level containers back to their
+    import-time contents: afterwards the process knows nothing about earlier operations"""
+    for _ns_name, ns in _library_namespaces():
+        for _k, v in list(ns.items()):
+            f = getattr(v, 'cache_clear', None)
+            if callable(f):
+                try:
+                    f()
+                except Exception:  # noqa: BLE001
+                    pass
+    for (_ns, _k), (live, saved) in _MODULE_SNAPSHOT.items():
+        try:
+            if isinstance(live, dict):
+                live.clear()
+                live.update(saved)
+            elif isinstance(live, list):
+                live[:] = saved
+            elif isinstance(live, set):
+                live.clear()
+                live.update(saved)
+        except Exception:  # noqa: BLE001
+            pass
+
+
 def slot_of(op):
     return op[1] if op[0] in ('mkpartial', 'mkpartialobj', 'mkderiv', 'mkdiff', 'pat', 'dat', 'datnum', 'pexpr',
                               'dexpr', 'dfat', 'dfcompat', 'dfcompexpr') else None
@@ -241,8 +294,15 @@ def run_history(h, fresh_oracle=True):
         for o in w.everything():
             if id(o) not in snaps:
                 snaps[id(o)] = (o, structure(o))
-        # C09 oracle
-        if fresh_oracle and not r.startswith(('OK', 'NOSLOT')):
+    # C09 oracle, after the used run is complete: every answer against the answer of never-used copies (only the
+    # earlier operations on the same derivative object are replayed), each time from a process state in which every
+    # module-level memo of the library has been emptied (a memo keyed by ==, say, survives across objects)
+    if fresh_oracle:
+        for i, op in enumerate(h['ops']):
+            r = outs[i]
+            if r.startswith(('OK', 'NOSLOT')):
+                continue
+            reset_module_state()
             w2 = World(h)
             s = slot_of(op)
             r2 = None
@@ -387,6 +447,7 @@ def arm(limit):
 def main():
     import signal
     sys.setrecursionlimit(20000)
+    snapshot_module_state()
     limit = float(os.environ.get('VERIF_CASE_TIMEOUT', '30'))
     signal.signal(signal.SIGALRM, _alarm)
     timeouts = 0
